@@ -376,7 +376,7 @@ def c20_check(pid, tier, seed, replay=None):
     try:
         binp = go_build(wd, race=True)
         tlc(wd, "OPEmitWorld.tla", cfg="OPEmitWorld.cfg", workers=1, timeout=120)
-        env = dict(GOENV, VERIF_RACELOG=os.path.join(wd, "race"), GORACE=f"log_path={os.path.join(wd, 'race')} halt_on_error=0")
+        env = dict(GOENV, VERIF_RACELOG=os.path.join(wd, "race"), GORACE=f"log_path={os.path.join(wd, 'race')} halt_on_error=0 exitcode=0")
         if tier == "replay":
             shutil.copy(os.path.join(replay, "Isolation.cases.ndjson"), wd)
             rc, out = run([binp, "tbl-isolation", "-in", "Isolation.cases.ndjson", "-out", "obs.ndjson", "-world", "world.json"], wd, env=env)
